@@ -90,6 +90,14 @@ pub fn gen_c03(seed: u64, thorough: bool) -> Plan {
     let down = sizes(&mut g);
     f.up = up.iter().flat_map(|s| [Op::Write(*s), Op::Pause(5)]).collect();
     f.down = down.iter().flat_map(|s| [Op::Write(*s), Op::Pause(5)]).collect();
+    // a quarter of the stream plans are slow starters: the application writes its first byte 31-50 s after its handshake, the
+    // target thinks for 31-50 s before its first answer byte - what a sender puts into a header (timestamps) has to be true
+    // when the header leaves, and the reference judges it when it arrives
+    let slow_ms = if g.chance(25) { g.range(31_000, 50_000) } else { 0 };
+    if slow_ms > 0 {
+        f.up.insert(0, Op::Pause(slow_ms));
+        f.down.insert(0, Op::Pause(slow_ms));
+    }
     let vmess_options: u8 = 1 | (g.below(2) as u8 * 4) | (g.below(2) as u8 * 8) | (g.below(2) as u8 * 16);
     // the encoder mode has nothing to do for VMess: one in three of those seeds compares a stream longer than the 16-bit chunk counter
     let mode = if mode == "encoder" && proto == Proto::Vmess && (seed / MODES.len() as u64 / cells.len() as u64) % 3 == 0 { "vmess-long" } else { mode };
@@ -247,6 +255,7 @@ async fn client_to_ref(plan: &Plan, g: &mut Gen) -> Seen {
     let mut sent_any = false;
     let want_up = expected_up(&f, 0);
     let want_down = expected_down(&f, 0);
+    let slow_polls = f.up.iter().chain(&f.down).map(|o| if let Op::Pause(ms) = o { *ms / 500 } else { 0 }).sum::<u64>() + 2;
     let mut buf = vec![0u8; 65536];
     let mut answered = false;
     let opts = ServerOpts::default();
@@ -281,7 +290,7 @@ async fn client_to_ref(plan: &Plan, g: &mut Gen) -> Seen {
             }
         }
         let done = answered && obs.lock().unwrap().app.recv.len() >= want_down.len();
-        if done || idle > 40 {
+        if done || idle > 40 + slow_polls {
             break;
         }
     }
@@ -314,6 +323,7 @@ async fn ref_to_server(plan: &Plan, g: &mut Gen) -> Seen {
     tokio::task::yield_now().await;
     let want_up = payload(0, 0, 0, f.up_total());
     let want_down = expected_down(&f, 0);
+    let slow_polls = f.down.iter().map(|o| if let Op::Pause(ms) = o { *ms / 500 } else { 0 }).sum::<u64>() + 2;
     let Ok(mut s) = TcpStream::connect(server_addr()).await else {
         seen.ref_error = Some("cannot connect to the server".into());
         return seen;
@@ -365,7 +375,7 @@ async fn ref_to_server(plan: &Plan, g: &mut Gen) -> Seen {
             }
             Err(_) => idle += 1,
         }
-        if (cl.payload.len() >= want_down.len() && obs.lock().unwrap().target.recv.len() >= want_up.len()) || idle > 40 {
+        if (cl.payload.len() >= want_down.len() && obs.lock().unwrap().target.recv.len() >= want_up.len()) || idle > 40 + slow_polls {
             break;
         }
     }
